@@ -6,7 +6,7 @@
 
 use async_trait::async_trait;
 use derive_builder::Builder;
-use http_types::headers::CONTENT_TYPE;
+use http_types::headers::{HeaderName, HeaderValue, CONTENT_TYPE};
 use serde::{Deserialize, Serialize};
 
 use crate::HttpError;
@@ -231,8 +231,9 @@ impl ProtocolRequestBuilder for crate::Request {
 
 impl crate::ResponseAsync {
     /// Converts the response the shell reported. A response which cannot be represented
-    /// (a status code unknown to `http_types::StatusCode`) is an error value, since the shell
-    /// only relays what some server sent and must not be able to panic the core.
+    /// (a status code unknown to `http_types::StatusCode`, a header name or value which is not
+    /// ASCII) is an error value, since the shell only relays what some server sent and must
+    /// not be able to panic the core.
     pub(crate) fn from_protocol(effect_response: HttpResponse) -> crate::Result<Self> {
         let status = http_types::StatusCode::try_from(effect_response.status).map_err(|_| {
             HttpError::Io(format!(
@@ -243,7 +244,19 @@ impl crate::ResponseAsync {
 
         let mut res = http_types::Response::new(status);
         for header in effect_response.headers {
-            res.append_header(header.name.as_str(), header.value);
+            let name: HeaderName = header.name.parse().map_err(|_| {
+                HttpError::Io(format!(
+                    "HTTP response header name is not ASCII: {}",
+                    header.name
+                ))
+            })?;
+            let value: HeaderValue = header.value.parse().map_err(|_| {
+                HttpError::Io(format!(
+                    "value of HTTP response header {} is not ASCII",
+                    header.name
+                ))
+            })?;
+            res.append_header(name, value);
         }
 
         // Setting a body makes http-types add `content-type: application/octet-stream` when the
